@@ -960,6 +960,9 @@ class Variable(CanBehaveLikeAVariable[T]):
             yield {}
             return
         name, remaining_names = names[0], names[1:]
+        if isinstance(self._child_vars_[name], DomainMapping):
+            # an argument is evaluated for its value here, wherever else the same expression is used.
+            self._child_vars_[name]._eval_parent_ = self
         for value in self._child_vars_[name]._evaluate__(copy(sources)):
             bound_values = copy(sources)
             bound_values.update(value)
